@@ -641,7 +641,7 @@ impl<'a, W: Write> YamlSerializer<'a, W> {
             if !self.doc_started {
                 self.doc_started = true;
                 if self.yaml_12 {
-                    self.out.write_str("%YAML 1.2\n")?;
+                    self.out.write_str("%YAML 1.2\n---\n")?;
                     // Still at start of a line after the directive.
                     self.at_line_start = true;
                 }
